@@ -81,6 +81,8 @@ struct Dumper<'a> {
   heap: &'a Heap,
   checked: &'a Checked,
   next_id: usize,
+  /// syntactic regions of recorded findings that occur in the module ("objpat-order")
+  regions: std::collections::BTreeSet<String>,
 }
 
 enum StaticTarget {
@@ -306,6 +308,9 @@ impl<'a> Dumper<'a> {
         json!({"k": "PT", "ps": ps})
       }
       pattern::MatchingPattern::Object { elements, .. } => {
+        if elements.windows(2).any(|w| w[0].field_order >= w[1].field_order) {
+          self.regions.insert("objpat-order".to_string());
+        }
         let fs: Vec<Value> = elements
           .iter()
           .map(|e| json!({"i": e.field_order + 1, "n": self.s(e.field_name.name), "p": self.pattern(&e.pattern)}))
@@ -372,8 +377,8 @@ fn fnv(s: &str) -> String {
 pub enum Dumped {
   Rejected(String),
   Crashed(String),
-  /// module name -> class table
-  Ok(BTreeMap<String, Value>),
+  /// module name -> class table; regions of recorded findings present in the user modules
+  Ok(BTreeMap<String, Value>, Vec<String>),
 }
 
 pub fn dump(sources: &BTreeMap<String, String>, with_std: bool) -> Dumped {
@@ -405,14 +410,16 @@ pub fn dump(sources: &BTreeMap<String, String>, with_std: bool) -> Dumped {
     );
   }
   let mut out = BTreeMap::new();
+  let mut regions = std::collections::BTreeSet::new();
   let mut names: Vec<(String, ModuleReference)> = checked.keys().map(|m| (mod_name(&heap, *m), *m)).collect();
   names.sort();
   for (name, m) in names {
     // ids are per module so that a module's dump does not depend on the other modules
-    let mut d = Dumper { heap: &heap, checked: &checked, next_id: 0 };
+    let mut d = Dumper { heap: &heap, checked: &checked, next_id: 0, regions: Default::default() };
     out.insert(name, d.module(&checked[&m]));
+    regions.extend(d.regions);
   }
-  Dumped::Ok(out)
+  Dumped::Ok(out, regions.into_iter().collect())
 }
 
 /// `vh ast-dump --in PROGRAMS.ndjson --out ASTS.ndjson [--lib LIB.json]`
@@ -452,9 +459,10 @@ pub fn main(args: &[String]) {
         o["front"] = json!("crashed");
         o["crash"] = json!(m);
       }
-      Dumped::Ok(mods) => {
+      Dumped::Ok(mods, regions) => {
         ok += 1;
         o["front"] = json!("accepted");
+        o["regions"] = json!(regions);
         if lib_path.is_some() {
           let mut refs = Map::new();
           for (name, table) in mods {
